@@ -73,6 +73,7 @@ type CAOpts struct {
 	NoSKI      bool
 	ExtKU      []x509.ExtKeyUsage
 	NotCA      bool
+	SKI        []byte // force this subject key identifier
 	OCSP       []string
 	CDP        []string
 }
@@ -102,6 +103,9 @@ func NewCA(o CAOpts) *CA {
 		KeyUsage: ku, ExtKeyUsage: o.ExtKU, OCSPServer: o.OCSP, CRLDistributionPoints: o.CDP}
 	if !o.NoSKI {
 		tmpl.SubjectKeyId = ski(key.Public())
+		if o.SKI != nil {
+			tmpl.SubjectKeyId = o.SKI
+		}
 	}
 	parentCert, parentKey := tmpl, key
 	if o.Parent != nil {
@@ -177,6 +181,11 @@ type CRLEntry struct {
 
 // StdCRL builds a v2 CRL with the standard library (AKI keyId + cRLNumber).
 func (ca *CA) StdCRL(number int64, entries []CRLEntry, thisUpdate, nextUpdate time.Time) []byte {
+	return ca.StdCRLExt(number, entries, thisUpdate, nextUpdate, nil)
+}
+
+// StdCRLExt is StdCRL with extra CRL extensions.
+func (ca *CA) StdCRLExt(number int64, entries []CRLEntry, thisUpdate, nextUpdate time.Time, extra []pkix.Extension) []byte {
 	var es []x509.RevocationListEntry
 	for _, e := range entries {
 		t := e.Time
@@ -186,7 +195,7 @@ func (ca *CA) StdCRL(number int64, entries []CRLEntry, thisUpdate, nextUpdate ti
 		es = append(es, x509.RevocationListEntry{SerialNumber: e.Serial, RevocationTime: t, ReasonCode: e.Reason, ExtraExtensions: e.Extra})
 	}
 	d, err := x509.CreateRevocationList(rand.Reader, &x509.RevocationList{Number: big.NewInt(number), ThisUpdate: thisUpdate, NextUpdate: nextUpdate,
-		RevokedCertificateEntries: es}, ca.Cert, ca.Key)
+		RevokedCertificateEntries: es, ExtraExtensions: extra}, ca.Cert, ca.Key)
 	if err != nil {
 		panic(fmt.Sprintf("create crl: %v", err))
 	}
